@@ -929,3 +929,12 @@ func (g *G) Metrics(n int, types []int) pmetric.Metrics {
 	}
 	return md
 }
+
+// KeyPool returns the attribute keys this history draws from.
+func (g *G) KeyPool() []string { return g.keys }
+
+// AddStrings adds strings to the value pool (e.g. an exhaustive class).
+func (g *G) AddStrings(s ...string) { g.strs = append(g.strs, s...) }
+
+// AddBytes adds byte strings to the bytes pool.
+func (g *G) AddBytes(b ...[]byte) { g.bytesP = append(g.bytesP, b...) }
